@@ -218,6 +218,34 @@ def width_of(x):
     return None
 
 
+SEQ_ATTRS = ("co_cellvars", "co_freevars", "co_varnames", "co_names", "co_consts", "co_code", "co_lnotab", "co_linetable", "co_filename", "co_name")
+
+
+def seq_like(x):
+    if isinstance(x, Sym) and x.kind in ("tuple", "list", "str", "bytes"):
+        return True
+    if isinstance(x, Op) and x.op in ("concat", "slice", "comp", "fstring", "strformat"):
+        return True
+    if isinstance(x, Op) and x.op == "attr" and x.args[1] in SEQ_ATTRS:
+        return True
+    if isinstance(x, Op) and x.op == "call" and x.args and x.args[0] in ("tuple", "list", "str", "bytes", "repr", "sorted"):
+        return True
+    return False
+
+
+def lin_width(l):
+    """bit width of a Lin whose atoms have known widths and power-of-two coefficients with disjoint ranges, else None"""
+    hi = 0
+    if l.const != 0:
+        return None
+    for t, c in l.terms.items():
+        w = width_of(t)
+        if w is None or not isinstance(c, int) or c <= 0 or (c & (c - 1)) != 0:
+            return None
+        hi = max(hi, w + c.bit_length() - 1)
+    return hi
+
+
 def binop(op, a, b):
     t = type(op)
     if not is_sym(a) and not is_sym(b):
@@ -239,6 +267,8 @@ def binop(op, a, b):
             return a + b
         return Op("concat" if t is ast.Add else t.__name__, a, b)
     if t is ast.Add:
+        if seq_like(a) or seq_like(b):
+            return Op("concat", a, b)  # ordered: sequences do not commute
         return add(a, b)
     if t is ast.Sub:
         return add(a, b, -1)
@@ -250,6 +280,13 @@ def binop(op, a, b):
         if isinstance(a, int) and a == 0: return b
         if isinstance(b, int) and b == 0: return a
         # x | (y << k) where x < 2**k  ==  x + y*2**k   (disjoint bit ranges)
+        for x, y in ((a, b), (b, a)):
+            wx = width_of(x) if not isinstance(x, Lin) else lin_width(x)
+            ly = lin(y)
+            if wx is not None and ly is not None and ly.terms and ly.const % (1 << wx) == 0 and \
+                    all(isinstance(c, int) and c % (1 << wx) == 0 for c in ly.terms.values()) and \
+                    all(width_of(t) is not None for t in ly.terms):
+                return add(x, y)
         return Op("or", *sorted((a, b), key=repr))
     if t is ast.BitAnd:
         if isinstance(a, int) and not isinstance(b, int):
@@ -413,6 +450,8 @@ class Spec(object):
         self.notes = []
         self.returns_seen = []
         self.frames = []
+        self.gen_elem_hook = None
+        self.byte_hook = None
 
     # ------------------------------------------------------------------ helpers
     def fresh(self, prefix, kind=None, info=None):
@@ -665,6 +704,10 @@ class Spec(object):
         if isinstance(v, Guard) and not is_sym(i):
             return phi(v.cond, self.index(v.a, i), self.index(v.b, i))
         if is_sym(v) or is_sym(i):
+            if self.byte_hook is not None and isinstance(v, Sym) and v.kind == "bytes":
+                r = self.byte_hook(self, v, i)
+                if r is not NotImplemented:
+                    return r
             if isinstance(v, Sym) and v.kind == "bytes":
                 n = v.info.get("n") if v.info else None
                 if isinstance(i, int) and not isinstance(i, bool) and i < 0 and isinstance(n, int):
@@ -1527,6 +1570,10 @@ class Spec(object):
         if isinstance(it, Sym) and it.kind == "bytes":
             return Sym("%s:elem" % tag, "byte", {"of": it})
         if isinstance(it, Sym) and it.kind == "gen":
+            if self.gen_elem_hook is not None:
+                r = self.gen_elem_hook(self, it, tag)
+                if r is not NotImplemented:
+                    return r
             return Sym("%s:elem" % tag, "genitem", {"gen": it})
         return Sym("%s:elem" % tag, None, {"of": it})
 
